@@ -31,6 +31,12 @@
            references whose last notification was that value
      relact code 1 parked, 5 done; consumer code 2 blocked, 3 returned (v, e, still holding its reference); fired = released-callback
      invocations; firepc 0 none, 1 its goroutine is parked, 5 done.
+     Error codes: 0 nil, 1 context.Canceled ITSELF, 2.. the harness's own errors (resolver: 2, 3; Access callback: 10, 11),
+     97 context.DeadlineExceeded, 98 the cause of a context cancelled with a cause, 99 anything else (e.g. a wrapped Canceled).
+     The harness gives the n-th consumer of a history a context of flavour n mod 4 (1: it ends like a deadline, 3: it is cancelled
+     with a cause, 0 / 2: plain WithCancel); the code under test returns the literal context.Canceled for all of them, so the
+     flavour is not part of the event.  Consumer code 7: a Wait / Resolve / ResolveWithReleased call RETURNED A CONTEXT ERROR THAT IS
+     NOT context.Canceled (e = 97, 98 or 99): no model state has that code (clause 10.8).
      Access consumers: code 6 inside the callback (v = the value it was called with, held = 1 iff its context is cancelled now),
      2 waiting / inside its final Release, 3 returned (v = the returned error code: 0 nil, 1 Canceled, else an error);
      e = the number of its watcher goroutines that are parked (woken, before cbCancel()), firepc = 1 iff the watcher of the
@@ -439,6 +445,11 @@ Definition mon1 (m : mst) (e : list N) (p : pobs) : mst * list (nat * nat) :=
                                      || spawned
                          | _ => true
                          end) in
+  (* ---- C10, clause 8: a Wait / Resolve / ResolveWithReleased call that fails returns the resolver's error or - its caller's
+     context having ended, however - context.Canceled ("a resolver error or a cancelled caller context is returned as such"):
+     consumer status 7 = it returned a context error other than context.Canceled itself (context.DeadlineExceeded for a context
+     that ended like a deadline, the cause of a context cancelled with a cause, a wrapped error).  Judged in every configuration ---- *)
+  let f10_8 := fails 10 8 (forallb (fun x => let '(code, _, _, _, _, _) := x in negb (N.eqb code 7)) (po_cons p)) in
   (* ---- C10: Access ---- *)
   let ccanc' := map (fun ib => snd ib || match e with [11; c] => Nat.eqb (n2n c) (fst ib) | _ => false end)
                     (combine (seq 0 ncons) (padb (m_ccanc m) ncons)) in
@@ -485,7 +496,7 @@ Definition mon1 (m : mst) (e : list N) (p : pobs) : mst * list (nat * nat) :=
       m_acanc := map (fun j => let '(_, a, _, _, _) := j in a) judged;
       m_ainv := map (fun j => let '(_, _, a, _, _) := j in a) judged;
       m_adec := map (fun j => let '(_, _, _, a, _) := j in a) judged; m_rootc := rootc'; m_empty := empty'; m_emptyok := emptyok' |},
-   ((if m_const m then [] else all) ++ facc)%list).
+   ((if m_const m then [] else all) ++ facc ++ f10_8)%list).
 
 Definition mon (m : option mst) (e o : list N) : option mst * list (nat * nat) :=
   match m with
